@@ -514,6 +514,33 @@ pub fn child_main() {
                 (st, Some(j)) if (j as usize) < end && j != u32::MAX => {
                     let idx = &lines[idxs[j as usize]].0;
                     use std::io::Write;
+                    // A 10 s alarm on a loaded machine is not a hang: the case is run again, alone, with a
+                    // 180 s budget; only a timeout that persists is reported (a genuine hang still is).
+                    let mut st = st;
+                    if st == sys::Forked::Signal(14) {
+                        let jj = j as usize;
+                        let (st2, last2) = sys::worker(|progress| {
+                            progress(jj as u32);
+                            sys::set_alarm(180);
+                            let (idx, flags, prog) = &lines[idxs[jj]];
+                            let l = if flags.contains('F') {
+                                let fresh = warm_vm(flags.contains('P'));
+                                eval_line(&fresh, prog, flags.contains('W'))
+                            } else {
+                                eval_line(&vm, prog, flags.contains('W'))
+                            };
+                            use std::io::Write;
+                            let _ = chan.write_all(format!("{}\t{}\n", idx, l).as_bytes());
+                            sys::set_alarm(0);
+                            progress(u32::MAX);
+                        });
+                        if st2 == sys::Forked::Done && last2 == Some(u32::MAX) {
+                            tlog!("[c06 child] case {} timed out at 10 s, finished alone (load)", idx);
+                            k = jj + 1;
+                            continue;
+                        }
+                        st = st2;
+                    }
                     let l = match st {
                         sys::Forked::Signal(14) => format!("{}\ttimeout\t\n", idx),
                         sys::Forked::Signal(s) => format!("{}\tsignal:{}\t\n", idx, s),
